@@ -20,7 +20,7 @@ import (
 // (i) one BaseClient, endings racing each other and Connect
 
 type c16Ending struct {
-	Kind   string `json:"kind"` // peerClose | localClose | malformed | disconnect
+	Kind   string `json:"kind"` // peerClose | localClose | malformed | disconnect | badSuback (SUBACK with the wrong number of codes for a pending Subscribe)
 	Yields int    `json:"yields"`
 }
 
@@ -58,7 +58,7 @@ func c16Gen(rt *rapid.T) c16Case {
 		c.Noise = rapid.SliceOfN(rapid.IntRange(0, len(c16NoisePackets)-1), 0, 4).Draw(rt, "noise")
 	}
 	c.Endings = rapid.SliceOfN(rapid.Custom(func(rt *rapid.T) c16Ending {
-		return c16Ending{Kind: rapid.SampledFrom([]string{"peerClose", "localClose", "malformed", "disconnect"}).Draw(rt, "kind"), Yields: rapid.IntRange(0, 6).Draw(rt, "yields")}
+		return c16Ending{Kind: rapid.SampledFrom([]string{"peerClose", "localClose", "malformed", "disconnect", "badSuback"}).Draw(rt, "kind"), Yields: rapid.IntRange(0, 6).Draw(rt, "yields")}
 	}), 1, 4).Draw(rt, "endings")
 	if c.ConnAck == "none" || c.ConnAck == "refused" || c.ConnAck == "malformed" {
 		// these already end the attempt (refused/malformed) or leave Connect blocked (none): at least one ending follows anyway
@@ -151,6 +151,26 @@ func c16Run(tb rapid.TB, c c16Case) {
 			}
 		}
 	}
+	// a Subscribe that is waiting for its SUBACK (needed by the badSuback ending; only on an established connection)
+	subID := 0
+	needSub := false
+	for _, e := range c.Endings {
+		if e.Kind == "badSuback" {
+			needSub = true
+		}
+	}
+	if needSub && c.Settle {
+		go func() {
+			_, _ = r.cli.Subscribe(ctx, Subscription{Topic: "c16/sub", QoS: QoS1}, Subscription{Topic: "c16/sub2", QoS: QoS1})
+		}()
+		if r.peer.waitRecv(20*time.Second, func(pk refPacket) bool { return pk.Type == rtSubscribe }, 1) {
+			for _, pk := range r.peer.received() {
+				if pk.Type == rtSubscribe {
+					subID = pk.ID
+				}
+			}
+		}
+	}
 	// ---- the endings, racing
 	var wg sync.WaitGroup
 	disconnectCalled := false
@@ -175,6 +195,12 @@ func c16Run(tb rapid.TB, c c16Case) {
 				r.cli.Close()
 			case "malformed":
 				r.peer.sendRaw([]byte{0xF0, 0x00}, "malformed")
+			case "badSuback":
+				if subID != 0 {
+					r.peer.send(refPacket{Type: rtSubAck, ID: subID, Codes: []int{1}}) // one code for two filters: the client drops the link
+				} else {
+					r.peer.sendRaw([]byte{0xF0, 0x00}, "malformed") // no Subscribe pending (connection not established): plain protocol error
+				}
 			case "disconnect":
 				dctx, dc := context.WithTimeout(context.Background(), 20*time.Second)
 				seq := r.log.add(1, "DISCONNECT-CALL", nil, "")
